@@ -29,6 +29,7 @@ import IbicusModel.Props.C03
 #print axioms Props.C03.cdft_fixed_point_rw
 #print axioms Props.C03.cdft_fixed_point_years
 #print axioms Props.C03.cdft_fixed_point_rw_years
+#print axioms Props.C03.qdm_fixed_point_rw_years
 #print axioms Props.C03.dc_identity_rw
 -- the interpolation / quantile inverse lemmas (Lemmas/StatsInverse.lean)
 #print axioms Lemmas.Stats.interp_quantile_id
